@@ -19,7 +19,7 @@
    min/max = the list minimum/maximum as soon as ninf <= every datum <= pinf. *)
 From Coq Require Import ZArith List Bool String.
 From Coq Require Import PrimFloat.
-Require Import PV.Base.Val PV.Base.Num PV.Base.NumSqrt PV.Gen.StatCounter PV.Gen.Covariance.
+Require Import PV.Base.Val PV.Base.Num PV.Base.SqrtOps PV.Gen.StatCounter PV.Gen.Covariance.
 Import ListNotations.
 Open Scope Z_scope.
 
@@ -65,7 +65,7 @@ Fixpoint left_comb {A} (acc : mtree A) (parts : list (list A)) : mtree A :=
   end.
 
 Section Stats.
-Context {N : NumOps} {S : NumSqrt N}.
+Context {N : NumOps} {S : SqrtOps N}.
 
 (* ------------------------------------------------------------------ StatCounter *)
 Record sc : Type := mkSC { sc_n : Z; sc_mu : F; sc_m2 : F; sc_max : F; sc_min : F }.
